@@ -8,7 +8,7 @@ import copy
 import itertools
 import random
 
-from .. import corpus, determined, gen, minimise, ops, proc
+from .. import corpus, determined, gen, gen_dag, minimise, ops, proc
 from ..seams import SIM
 
 BUDGET = {"quick": 120.0, "thorough": 3300.0}
@@ -195,6 +195,12 @@ def timeseries_workload(rng):
 
 
 def _make_op(src):
+    if src[0] == "dag":
+        rng = random.Random(src[1])
+        w = gen_dag.generate(rng, rows=rng.choice([3, 4, 5, 6, 8]), n_statements=rng.choice([1, 2, 3, 4]))
+        o = gen.as_op(w, kwargs={"return_only_persistent": False})
+        o["sid"] = "dag:%d" % src[1]
+        return o
     if src[0] == "tseries":
         o = timeseries_workload(random.Random(src[1]))
         o["sid"] = "tseries:%d" % src[1]
@@ -278,15 +284,19 @@ def run(ctx):
     n_gen = 700 if quick else 30000
     cps = [e for e in corpus.discover() if 0 < e["bytes"] < (20000 if quick else 300000)]
     n_corpus = 150 if quick else len(cps)
-    items = [("gen", rng.randrange(1 << 30)) for _ in range(n_gen)]
+    items = [("gen", rng.randrange(1 << 30)) for _ in range(n_gen - n_gen // 4)]
+    items += [("dag", rng.randrange(1 << 30)) for _ in range(n_gen // 4)]     # joins, UDOs, hierarchy / datapoint rulesets, set operators
     items += [("corpus", e) for e in rng.sample(cps, min(n_corpus, len(cps)))]
     rng.shuffle(items)
     ts = [("tseries", rng.randrange(1 << 30)) for _ in range(60 if quick else 2500)]
     items = [("sample", rng.randrange(1 << 30)) for _ in range(6 if quick else 200)] + ts[:16] + items
     for i, x in enumerate(ts[16:]):
         items.insert(min(len(items), 24 + i * 5), x)
-    size = 8
-    tasks = [{"items": items[i:i + size], "quick": quick, "seed": ctx.seed} for i in range(0, len(items), size)]
+    size = 4
+    heavy = [it for it in items if it[0] == "sample"]
+    light = [it for it in items if it[0] != "sample"]
+    tasks = [{"items": [it], "quick": quick, "seed": ctx.seed} for it in heavy] + \
+            [{"items": light[i:i + size], "quick": quick, "seed": ctx.seed} for i in range(0, len(light), size)]
     done = ctx.map("task_batch", tasks, budget_s=ctx.budget_s * 0.85, min_tasks=24)
     violations, nontrivial, samples = [], set(), []
     n_eval = n_valid = n_skipped = n_scripts = n_viral = 0
